@@ -3,9 +3,9 @@ CONSTANTS
   NUri = 2
   NText = 3
   MaxHist = 3
-  Kinds = {"open", "change0", "change1", "change2", "open_nf", "semtok", "unkreq", "unknotif", "cresp", "shutdown"}
+  Kinds = {"open", "change0", "change1", "change2", "open_nf", "semtok", "unkreq", "unknotif", "cresp", "close", "badreq", "badnotif", "shutdown"}
   Emit = TRUE
   Deviations = {}
-INVARIANTS CacheCoherent DocsFollowProtocol PublishesMatchNotifications AnswerExactlyOnce NoPendingAtRest NeverAnswerNotification UnknownGetsError Survives ShutdownThenExit EmitReplay
+INVARIANTS CacheCoherent DocsFollowProtocol PublishesMatchNotifications AnswerExactlyOnce NoPendingAtRest NeverAnswerNotification UnknownGetsError BadParamsGetsError Survives ShutdownThenExit EmitReplay
 PROPERTIES PublishExactlyOnce
 CHECK_DEADLOCK FALSE
